@@ -331,7 +331,15 @@ class Evaluator:
 
     def lkup_object(self):
         if self._lkup is None:
-            t = tab.restable_tables(self.prog)
+            try:
+                t = tab.restable_tables(self.prog)
+            except Undecided as first:
+                # not the loop-and-store idiom TAB reads: the constructor is executed over the (folded) data tables instead
+                try:
+                    self._lkup = self._lkup_concrete()
+                except Undecided as e:
+                    raise Undecided("%s; executing the constructor: %s" % (first.msg if hasattr(first, "msg") else first, e.msg if hasattr(e, "msg") else e), getattr(e, "where", None))
+                return self._lkup
             rows, keycol = t["_rows"], t["_keycol"]
             fields = t["_fields"]
             p2col = t["_p2col"]
@@ -363,14 +371,37 @@ class Evaluator:
                         self._lkup.fields[k[6:]] = v
         return self._lkup
 
+    def construct(self, init, bound, fr, node=None):
+        """execute a constructor whose arguments are concrete: the object is the fields it stored (one non-raising path)"""
+        obj = ObjV(init.cls, {})
+        paths = self.run_function(init, bound, obj, fr.depth + 1 if fr is not None else 0)
+        done = [p for p in paths if p.kind != "raise"]
+        if len(done) != 1 or done[0].conds or len(paths) != 1:
+            raise Undecided("%s.__init__ does not reduce to one path on these arguments" % init.cls, init.loc())
+        for k, v in done[0].env.items():
+            if k.startswith("@self."):
+                obj.fields[k[6:]] = v
+        return obj
+
+    def _lkup_concrete(self):
+        """the residue table object by executing ResTable.__init__ (no arguments) over the folded data tables"""
+        init = self.prog.fn(tab.RT, "ResTable.__init__")
+        if [p for p in init.params()[1:] if p not in init.defaults()]:
+            raise Undecided("ResTable.__init__ takes arguments", init.loc())
+        obj = self.construct(init, {}, None)
+        table = obj.fields.get("residue_table")
+        if not (isinstance(table, dict) and table and all(isinstance(v, ObjV) and v.cls == "Residue" for v in table.values())):
+            raise Undecided("ResTable.__init__ does not leave a residue_table of Residue objects", init.loc())
+        return obj
+
     # --- entry points ---------------------------------------------------------
     def run_function(self, f, args=None, self_obj=None, depth=0, conds=None):
         """-> list of Path (kind return/raise/fall)"""
         if depth > MAX_DEPTH:
             raise Undecided("inlining depth exceeded", f.loc())
-        if f.node.decorator_list and f.key not in self.decorators_ok and f.key not in DECORATORS_OK:
+        if f.opaque_decorators() and f.key not in self.decorators_ok and f.key not in DECORATORS_OK:
             raise Undecided("%s is decorated (%s): its body is not what a call executes" % (
-                f.qual, ", ".join(unparse(d) for d in f.node.decorator_list)), f.loc())
+                f.qual, ", ".join(unparse(d) for d in f.opaque_decorators())), f.loc())
         env = {}
         params = f.params()
         args = dict(args or {})
@@ -484,12 +515,15 @@ class Evaluator:
         if isinstance(s, ast.Assert):
             return [p]
         if isinstance(s, ast.Try):
-            if s.finalbody or s.orelse:
-                raise Undecided("try/else/finally not modelled", fr.f.loc(s))
+            if s.finalbody:
+                raise Undecided("try/finally not modelled", fr.f.loc(s))
             outs = []
             for q in self.exec_block(s.body, [p], fr):
                 if q.kind != "raise":
-                    outs.append(q)
+                    if s.orelse and q.kind == "live":
+                        outs.extend(self.exec_block(s.orelse, [q], fr))      # the else clause runs when the body raised nothing
+                    else:
+                        outs.append(q)
                     continue
                 handled = False
                 for h in s.handlers:
@@ -517,6 +551,17 @@ class Evaluator:
         fn = call.func
         if isinstance(fn, ast.Attribute) and fn.attr == "append" and isinstance(fn.value, ast.Name):
             tgt = p.env.get(fn.value.id)
+            if isinstance(tgt, list) and len(call.args) == 1:
+                # a concrete list held in a local: the binding is updated (aliases of the list are not tracked - EFF's business)
+                outs = []
+                for conds, v in self.eval_paths(call.args[0], p, fr):
+                    if isinstance(v, _Raised):
+                        outs.append(Path(conds, "raise", v.name, p.env))
+                        continue
+                    e2 = dict(p.env)
+                    e2[fn.value.id] = list(tgt) + [v]
+                    outs.append(Path(conds, "live", None, e2))
+                return outs
             if isinstance(tgt, ListAcc) and len(call.args) == 1:
                 outs = []
                 for conds, v in self.eval_paths(call.args[0], p, fr):
@@ -561,7 +606,7 @@ class Evaluator:
         if isinstance(target, ast.Name):
             env[target.id] = val
             return
-        if isinstance(target, ast.Tuple) and isinstance(val, tuple) and len(val) == len(target.elts):
+        if isinstance(target, (ast.Tuple, ast.List)) and isinstance(val, (tuple, list)) and len(val) == len(target.elts):
             for t, v in zip(target.elts, val):
                 self.assign(t, v, env, fr, conds)
             return
@@ -605,7 +650,13 @@ class Evaluator:
     # --- loops ----------------------------------------------------------------
     def exec_for(self, s, p, fr):
         if s.orelse:
-            raise Undecided("for-else", fr.f.loc(s))
+            # for-else: only over a concrete container (below); the else block runs on the paths that were not left by `break`
+            try:
+                itv = self.eval(s.iter, p.env, fr)
+            except Undecided:
+                itv = None
+            if not isinstance(itv, (list, tuple, dict)):
+                raise Undecided("for-else", fr.f.loc(s))
         # for i, x in enumerate(<sequence>[, start])
         if isinstance(s.iter, ast.Call) and getattr(s.iter.func, "id", None) == "enumerate" and s.iter.args \
                 and isinstance(s.target, ast.Tuple) and len(s.target.elts) == 2 and all(isinstance(e, ast.Name) for e in s.target.elts):
@@ -620,6 +671,11 @@ class Evaluator:
                 return self.element_loop(s, p, fr, base, s.target.elts[1].id, by_index=False, lo=Rat.const(0), hi=Rat.atom("N"),
                                          idx_var=s.target.elts[0].id, idx_start=start)
         it = self.eval(s.iter, p.env, fr)
+        if isinstance(it, ListAcc):
+            it = list(it.items)
+        if isinstance(it, WinV) and it.base.kind == "seq" and isinstance(it.lo, Rat) and it.lo.equals(Rat.const(0)) \
+                and isinstance(it.hi, Rat) and it.hi.equals(Rat.atom("N")):
+            it = it.base                   # seq[:self.len] / seq[0:len(seq)] is the whole sequence (length invariant)
         # element loop directly over the sequence (or a per-residue map)
         if isinstance(it, SeqV) and isinstance(s.target, ast.Name):
             return self.element_loop(s, p, fr, it, s.target.id, by_index=False,
@@ -681,6 +737,9 @@ class Evaluator:
             for q in paths:
                 if q.kind == "break":
                     q = Path(q.conds, "live", None, q.env)
+                elif q.kind == "live" and s.orelse:
+                    out.extend(self.exec_block(s.orelse, [q], fr))
+                    continue
                 out.append(q)
             return out
         raise Undecided("loop over %s not modelled" % unparse(s.iter)[:50], fr.f.loc(s))
@@ -1062,9 +1121,19 @@ class Evaluator:
             if isinstance(a, str) and isinstance(b, (str, list, tuple, set, frozenset, dict)):
                 r = a in b
                 return r if name == "In" else not r
-            if isinstance(a, Rat) and a.is_const() and isinstance(b, (list, tuple, set)):
-                r = any(isinstance(x, Rat) and x.is_const() and x.const_value() == a.const_value() for x in b)
+            if isinstance(a, Rat) and a.is_const() and isinstance(b, (list, tuple, set, dict)):
+                r = any(_as_rat(x) is not None and _as_rat(x).is_const() and _as_rat(x).const_value() == a.const_value() for x in b)
                 return r if name == "In" else not r
+            if isinstance(a, Rat) and isinstance(b, (list, tuple, dict)) and len(b) <= 32:
+                # a symbolic number against a concrete collection: one equality per numeric member
+                keys = list(b.keys()) if isinstance(b, dict) else list(b)
+                nums = [_as_rat(k) for k in keys]
+                nums = [k for k in nums if k is not None and k.is_const()]
+                if nums:
+                    c = ("or", [("cmp", a, "==", k) for k in nums]) if len(nums) > 1 else ("cmp", a, "==", nums[0])
+                else:
+                    c = False
+                return c if name == "In" else c_not(c)
             raise Undecided("membership test on symbolic value (%s)" % unparse(node)[:60], fr.f.loc(node))
         sym = {"Eq": "==", "NotEq": "!=", "Lt": "<", "LtE": "<=", "Gt": ">", "GtE": ">="}.get(name)
         if sym is None:
@@ -1153,8 +1222,15 @@ class Evaluator:
             if c is False:
                 return self.eval(node.orelse, env, fr)
             raise _NeedSplit(node, [([c], self.eval(node.body, env, fr)), ([c_not(c)], self.eval(node.orelse, env, fr))])
+        if isinstance(node, ast.Lambda):
+            a = node.args
+            if a.vararg or a.kwarg or a.kwonlyargs or a.defaults or a.posonlyargs:
+                raise Undecided("lambda with defaults / star parameters", fr.f.loc(node))
+            return LambdaV(node, env, fr.f)
         if isinstance(node, ast.ListComp) and len(node.generators) == 1:
             return self.eval_listcomp(node, env, fr)
+        if isinstance(node, ast.ListComp):
+            return [self.eval(node.elt, e2, fr) for e2 in self._comp_envs(node.generators, env, fr, node)]
         if isinstance(node, ast.DictComp) and len(node.generators) == 1 and not node.generators[0].ifs:
             g = node.generators[0]
             it = g.iter
@@ -1178,7 +1254,14 @@ class Evaluator:
                         self.assign(t, v, e2, fr, [])
                     out[_pykey(self.eval(node.key, e2, fr))] = self.eval(node.value, e2, fr)
                 return out
-            raise Undecided("dict comprehension not modelled", fr.f.loc(node))
+            out = {}
+            for e2 in self._comp_envs(node.generators, env, fr, node):
+                kv = self.eval(node.key, e2, fr)
+                k = _pykey(kv)
+                if k is None and kv is not None:
+                    raise Undecided("dict comprehension with a symbolic key", fr.f.loc(node))
+                out[k] = self.eval(node.value, e2, fr)
+            return out
         raise Undecided("expression kind %s not modelled: %s" % (type(node).__name__, unparse(node)[:60]),
                         fr.f.loc(node))
 
@@ -1198,28 +1281,41 @@ class Evaluator:
                     raise Undecided("comprehension element not constant per letter", fr.f.loc(node))
                 table[L] = v.const_value()
             return SeqV("map", self.elkey_for(table))
-        if isinstance(it, (list, tuple, str)) and isinstance(g.target, ast.Name):
-            out = []
-            for item in it:
-                e2 = dict(env)
-                e2[g.target.id] = item
-                keep = True
-                for cnd in g.ifs:
-                    c = self.cond(cnd, e2, fr)
-                    if c is False:
-                        keep = False
-                    elif c is not True:
-                        raise Undecided("comprehension filter on symbolic value", fr.f.loc(node))
-                if keep:
-                    out.append(self.eval(node.elt, e2, fr))
-            return out
+        if isinstance(it, (list, tuple, str, dict)):
+            return [self.eval(node.elt, e2, fr) for e2 in self._comp_envs(node.generators, env, fr, node)]
         raise Undecided("list comprehension not modelled", fr.f.loc(node))
+
+    def _comp_envs(self, gens, env, fr, node):
+        """the environments a comprehension's element is evaluated in, when every iterable is concrete (a folded table, a literal)"""
+        if not gens:
+            yield env
+            return
+        g = gens[0]
+        it = self.eval(g.iter, env, fr)
+        if isinstance(it, dict):
+            it = list(it.keys())
+        if not isinstance(it, (list, tuple, str)):
+            raise Undecided("comprehension over a value that is not a concrete sequence", fr.f.loc(node))
+        for item in it:
+            e2 = dict(env)
+            self.assign(g.target, item, e2, fr, [])
+            keep = True
+            for cnd in g.ifs:
+                c = self.cond(cnd, e2, fr)
+                if c is False:
+                    keep = False
+                elif c is not True:
+                    raise Undecided("comprehension filter on symbolic value", fr.f.loc(node))
+            if keep:
+                yield from self._comp_envs(gens[1:], e2, fr, node)
 
     def global_value(self, g, fr, node):
         m, name = g
         t = self.prog.global_types.get((m.rel, name))
         if t == "ResTable":
             return self.lkup_object()
+        if name in m.funcs and name not in m.globals:
+            return FuncV(m.funcs[name])
         if name in m.globals:
             try:
                 return _wrap(tab.literal(m, m.globals[name]))
@@ -1308,6 +1404,8 @@ class Evaluator:
 
     def eval_subscript(self, node, env, fr):
         base = self.eval(node.value, env, fr)
+        if isinstance(base, ListAcc):
+            base = list(base.items)            # a list built by appends, read back by position
         sl = node.slice
         if isinstance(sl, ast.Slice):
             if sl.step is not None:
@@ -1426,6 +1524,10 @@ class Evaluator:
                 if all(isinstance(x, str) for x in parts):
                     return a % tuple(parts)
                 return astr_fmt(a, parts)
+        if op in ("Add", "Sub", "Mult"):
+            # a decided comparison used as a number (True is 1, False is 0)
+            a = int(a) if isinstance(a, bool) else a
+            b = int(b) if isinstance(b, bool) else b
         ra, rb = _as_rat(a), _as_rat(b)
         if ra is None or rb is None:
             raise Undecided("arithmetic on non-numbers: %s" % unparse(node)[:60], fr.f.loc(node))
@@ -1547,6 +1649,12 @@ class Evaluator:
             if isinstance(v, (list, tuple)) and all(isinstance(x, (tuple, list)) and len(x) == 2 and _pykey(x[0]) is not None for x in v):
                 return {_pykey(x[0]): x[1] for x in v}
             raise Undecided("dict(%s)" % unparse(args[0])[:40], fr.f.loc(node))
+        if name == "zip" and args and not node.keywords and not any(isinstance(a, ast.Starred) for a in args):
+            vals = [self.eval(a, env, fr) for a in args]
+            vals = [list(v.keys()) if isinstance(v, dict) else v for v in vals]
+            if all(isinstance(v, (list, tuple, str)) for v in vals):
+                return [tuple(t) for t in zip(*vals)]
+            raise Undecided("zip() of a value that is not a concrete sequence", fr.f.loc(node))
         if name in ("float", "int", "str", "abs", "len", "list", "set", "min", "max", "sum", "range",
                     "sorted", "tuple", "round"):
             return self.builtin(name, node, env, fr)
@@ -1656,7 +1764,22 @@ class Evaluator:
         ext = self.extern_calls.get(unparse(fn))
         if ext is not None:
             return ext(node, [self.eval(a, env, fr) for a in args])
+        if isinstance(fn, ast.Name) and isinstance(env.get(fn.id), LambdaV) and not node.keywords and not any(isinstance(a, ast.Starred) for a in args):
+            lv = env[fn.id]
+            ps = [a.arg for a in lv.node.args.args]
+            if len(ps) != len(args):
+                raise _Raised("TypeError")
+            e2 = dict(lv.env)
+            for p_, a in zip(ps, args):
+                e2[p_] = self.eval(a, env, fr)
+            return self.eval(lv.node.body, e2, _Frame(lv.f, fr.depth + 1))
         callee = self.prog.resolve_call(fr.f, node, fr.types())
+        if isinstance(fn, ast.Name) and isinstance(env.get(fn.id), FuncV):
+            callee = env[fn.id].f                       # a local bound to a package function
+        elif callee is None and isinstance(fn, ast.Subscript):
+            fv = self.eval(fn, env, fr)                 # a function looked up in a table
+            if isinstance(fv, FuncV):
+                callee = fv.f
         if callee is None and isinstance(fn, ast.Attribute):
             # method on a modelled object value
             try:
@@ -1683,18 +1806,25 @@ class Evaluator:
                     b[k] = self.eval(v, env, fr)
                 return oc(b)
             return oc if isinstance(oc, Rat) else Rat.atom(oc)
-        if callee.mod.rel == tab.AA and not callee.cls:
+        if callee.mod.rel == tab.AA and not callee.cls and callee.qual in ("buildTable", "build_amino_acids_skeleton") and not args and not kw:
             try:
-                return _wrap(tab.table_from_func(self.prog, callee.mod.rel, callee.qual))
+                return _wrap([list(r) for r in tab.skeleton_rows(self.prog)[0]])       # the fill-rows-in-place idiom
+            except Undecided:
+                pass
+        elif callee.mod.rel == tab.AA and not callee.cls and not args and not kw and fr.depth < 4:
+            try:
+                return _wrap(tab._table_from_func(self.prog, callee.mod.rel, callee.qual))
             except Undecided:
                 pass
         # inline
         self_obj = None
         if callee.cls:
-            if isinstance(fn, ast.Attribute):
+            if callee.is_static:
+                self_obj = ObjV(callee.cls)              # no receiver: `Cls.helper(x)` and `self.helper(x)` run the same body
+            elif isinstance(fn, ast.Attribute):
                 self_obj = self.eval(fn.value, env, fr)
             if callee.name == "__init__":
-                if self.model_ctors:
+                if self.model_ctors and callee.cls not in CONCRETE_CTORS:
                     ps = callee.params()[1:]
                     flds = {}
                     for i, a in enumerate(args):
@@ -1704,19 +1834,36 @@ class Evaluator:
                     if callee.cls == "Sequence" and "arg:seq" in flds:
                         flds["seq"] = flds["arg:seq"]
                     return ObjV(callee.cls, flds)
-                raise Undecided("constructor call %s in a numeric context" % unparse(node)[:40], fr.f.loc(node))
+                if callee.cls in CONCRETE_CTORS:
+                    # a record class of the data layer: its constructor is executed, the object is what it stored
+                    self_obj = ObjV(callee.cls, {})
+                else:
+                    raise Undecided("constructor call %s in a numeric context" % unparse(node)[:40], fr.f.loc(node))
             if not isinstance(self_obj, ObjV):
                 raise Undecided("receiver of %s is not a modelled object" % callee.qual, fr.f.loc(node))
         params = callee.params()[1:] if callee.cls else callee.params()
         bound = {}
-        for i, a in enumerate(args):
+        actuals = []
+        for a in args:
+            if isinstance(a, ast.Starred):
+                sv = self.eval(a.value, env, fr)
+                if not isinstance(sv, (list, tuple)):
+                    raise Undecided("*%s is not a concrete sequence" % unparse(a.value)[:30], fr.f.loc(node))
+                actuals.extend(sv)
+            else:
+                actuals.append(self.eval(a, env, fr))
+        for i, a in enumerate(actuals):
             if i >= len(params):
                 raise Undecided("too many arguments for %s" % callee.qual, fr.f.loc(node))
-            bound[params[i]] = self.eval(a, env, fr)
+            bound[params[i]] = a
         for k, v in kw.items():
+            if k is None:
+                raise Undecided("** arguments in the call of %s" % callee.qual, fr.f.loc(node))
             if k not in params:
                 raise Undecided("unknown keyword %s for %s" % (k, callee.qual), fr.f.loc(node))
             bound[k] = self.eval(v, env, fr)
+        if callee.cls and callee.name == "__init__" and callee.cls in CONCRETE_CTORS:
+            return self.construct(callee, bound, fr, node)
         paths = self.run_function(callee, bound, self_obj, fr.depth + 1)
         alts = []
         for q in paths:
@@ -1783,6 +1930,36 @@ class Evaluator:
                 return Rat.const(len(a.items))
         if name in ("list", "tuple", "sorted") and len(args) == 1:
             a = args[0]
+            if isinstance(a, ListAcc) and name != "sorted":
+                a = list(a.items)
+            if name == "sorted" and isinstance(a, (dict, list, tuple, str)):
+                # really sorted: the elements must be concretely comparable (all strings, all constants, or sequences of those)
+                items = list(a.keys()) if isinstance(a, dict) else list(a)
+
+                def sk(x):
+                    if isinstance(x, SetL):
+                        raise Undecided("sorted() over sets (ordered by inclusion, not modelled)", fr.f.loc(node))
+                    if isinstance(x, str):
+                        return (0, x)
+                    r = _as_rat(x)
+                    if r is not None and r.is_const():
+                        return (1, r.const_value())
+                    if isinstance(x, (list, tuple)):
+                        return (2, tuple(sk(y) for y in x))
+                    raise Undecided("sorted() over elements lcsa cannot order (%s)" % unparse(node)[:50], fr.f.loc(node))
+                keys = [sk(x) for x in items]
+                if len({k[0] for k in keys}) > 1:
+                    raise Undecided("sorted() over elements of mixed kinds (%s)" % unparse(node)[:50], fr.f.loc(node))
+                if any(k.arg not in ("reverse",) for k in node.keywords):
+                    raise Undecided("sorted(..., key=...) not modelled", fr.f.loc(node))
+                rev = False
+                for k in node.keywords:
+                    rv = self.eval(k.value, env, fr)
+                    if not isinstance(rv, bool):
+                        raise Undecided("sorted(reverse=<symbolic>)", fr.f.loc(node))
+                    rev = rv
+                order = sorted(range(len(items)), key=lambda i: keys[i], reverse=rev)
+                return [items[i] for i in order]
             if isinstance(a, dict):
                 return list(a.keys())
             if isinstance(a, (list, tuple)):
@@ -1792,7 +1969,7 @@ class Evaluator:
             if isinstance(a, (SeqV, FieldListV)):
                 return a
         if name == "set" and len(args) == 1 and isinstance(args[0], (list, tuple)):
-            return list(args[0])
+            return SetL(args[0])
         if name in ("min", "max"):
             vals = args[0] if len(args) == 1 and isinstance(args[0], (list, tuple)) else args
             rs = [_as_rat(v) for v in vals]
@@ -1921,8 +2098,11 @@ class Evaluator:
             a = _as_rat(args[0])
             if a is not None:
                 return fatom("exp", a)
-        if attr == "vstack" and len(args) == 1 and isinstance(args[0], (tuple, list)):
-            return VStackV(list(args[0]))
+        if attr == "vstack" and len(args) == 1 and isinstance(args[0], (tuple, list, ListAcc)):
+            rows = []
+            for r_ in (args[0].items if isinstance(args[0], ListAcc) else args[0]):
+                rows.extend(r_.rows if isinstance(r_, VStackV) else [r_])         # stacking a stack appends its rows
+            return VStackV(rows)
         if attr in ("floor", "ceil") and len(args) == 1:
             a = _as_rat(args[0])
             if a is not None:
@@ -2106,8 +2286,58 @@ class TransTable(dict):
     """result of str.maketrans(a, b): character -> character (kept on characters, not code points)"""
 
 
+CONCRETE_CTORS = {"Residue"}
+
+
+class SetL(list):
+    """a set, kept as the list of its members in first-seen order: membership, iteration and len() behave like the list's; anything that
+    depends on an order among sets (sorted) must not take it for a list"""
+
+    def __init__(self, items=()):
+        seen = []
+        for x in items:
+            if not any(_same_member(x, y) for y in seen):
+                seen.append(x)
+        super().__init__(seen)
+
+
+def _same_member(a, b):
+    try:
+        return type(a) is type(b) and a == b and isinstance(a, (str, int, bool))
+    except Exception:
+        return False
+
+
+class LambdaV:
+    """a lambda expression as a value: its body is evaluated in the defining environment when it is called"""
+    __slots__ = ("node", "env", "f")
+
+    def __init__(self, node, env, f):
+        self.node, self.env, self.f = node, env, f
+
+    def __repr__(self):
+        return "LambdaV(%s)" % unparse(self.node)[:40]
+
+
+class FuncV:
+    """a package function used as a value (stored in a table, bound to a local, then called)"""
+    __slots__ = ("f",)
+
+    def __init__(self, f):
+        self.f = f
+
+    def __repr__(self):
+        return "FuncV(%s)" % self.f.key
+
+    def __eq__(self, o):
+        return isinstance(o, FuncV) and o.f is self.f
+
+    def __hash__(self):
+        return hash(self.f.key)
+
+
 def _is_concrete(v):
-    if isinstance(v, (str, int, bool, Fraction, type(None))):
+    if isinstance(v, (str, int, bool, Fraction, type(None), FuncV)):
         return True
     if isinstance(v, Rat):
         return v.is_const()
